@@ -1,7 +1,7 @@
 CONSTANTS
   ArithDigits = 2
-  Range = 14
-  RRange = 40
+  Range = 10
+  RRange = 30
   MaxP = 2
 INIT Init
 NEXT MCNext
